@@ -18,7 +18,7 @@ RULE = ("Models and points as in C01 (general grammar, lambdify back-end). Oracl
         "nonlinear in a state and a parameter multiplying a state; distinct by model hash.")
 ASSUMPTIONS = [
     "points are away from singularities by construction (positive denominators)",
-    "one-row/one-column outputs are compared after a size check and reshape",
+    "jacobian, grad, diff_jacobian and grad_jacobian must come back in their matrix layout (also with one state or one parameter); the tau-leap statistics, which the code returns flat for a single event, are compared after a size check and reshape",
     "transition statistics are compared only for models with at least one event",
 ]
 BUDGET = {"quick": (4, 110), "thorough": (16, 900)}
@@ -68,25 +68,29 @@ def oracle(case, rec):
         x, t = pt["x"], pt["t"]
         used = []
 
-        def ev(key, fn, shape, what, ref, *tol):
+        def ev(key, fn, shape, what, ref, *tol, terms=0.0, matrix=False):
             """Evaluate, compare with the reference; afterwards the caller uses the returned array in place."""
             raw = call(key, case, fn, x, t)
-            cmp(arr(raw, shape, what, key, case), ref, what, key, case, *tol)
+            if matrix and np.shape(raw) != tuple(shape):
+                # rows and columns are part of the statement: a 1 x nP gradient handed back as a flat vector has lost them
+                raise PropertyViolation(key + "/shape", "%s has shape %s, expected the matrix layout %s" % (what, np.shape(raw), shape), case)
+            cmp(arr(raw, shape, what, key, case), ref, what, key, case, *tol, terms=terms)
             used.append(raw)
 
-        ev("C03/jacobian", conv_fn(model, "jacobian", conv), (n_s, n_s), "jacobian(x,t)", d["J"], 1e-8)
-        ev("C03/grad", conv_fn(model, "grad", conv), (n_s, n_p), "grad(x,t)", d["G"], 1e-8)
+        ev("C03/jacobian", conv_fn(model, "jacobian", conv), (n_s, n_s), "jacobian(x,t)", d["J"], 1e-8, terms=d["mag1"], matrix=True)
+        ev("C03/grad", conv_fn(model, "grad", conv), (n_s, n_p), "grad(x,t)", d["G"], 1e-8, terms=d["mag1"], matrix=n_p > 0)
         ev("C03/diff_jacobian", conv_fn(model, "diff_jacobian", conv), (n_s * n_s, n_s), "diff_jacobian(x,t)",
-           d["Hxx"].reshape(n_s * n_s, n_s), 1e-8)
+           d["Hxx"].reshape(n_s * n_s, n_s), 1e-8, terms=d["mag2"], matrix=True)
         ref_gj = np.transpose(d["Hpx"], (1, 0, 2)).reshape(n_s * n_p, n_s)     # [k, i, j] -> row k*nS+i
-        ev("C03/grad_jacobian", model.grad_jacobian, (n_s * n_p, n_s), "grad_jacobian(x,t)", ref_gj, 1e-8)
+        ev("C03/grad_jacobian", model.grad_jacobian, (n_s * n_p, n_s), "grad_jacobian(x,t)", ref_gj, 1e-8, terms=d["mag2"], matrix=n_p > 0)
         if n_e:
             F_ref = d["dadx"].dot(d["V"])                                       # F[i,j] = sum_k da_i/dx_k V[k,j]
             mu_ref = F_ref.dot(d["a"])
             var_ref = (F_ref ** 2).dot(d["a"])
-            ev("C03/transitionJacobian", model.transitionJacobian, (n_e, n_e), "transitionJacobian(x,t)", F_ref, 1e-8)
-            ev("C03/transitionMean", model.transitionMean, (n_e,), "transitionMean(x,t)", mu_ref, 1e-8, 1e-10)
-            ev("C03/transitionVar", model.transitionVar, (n_e,), "transitionVar(x,t)", var_ref, 1e-8, 1e-10)
+            tF = float(np.abs(d["dadx"]).dot(np.abs(d["V"])).max()) if F_ref.size else 0.0
+            ev("C03/transitionJacobian", model.transitionJacobian, (n_e, n_e), "transitionJacobian(x,t)", F_ref, 1e-8, terms=tF)
+            ev("C03/transitionMean", model.transitionMean, (n_e,), "transitionMean(x,t)", mu_ref, 1e-8, 1e-10, terms=tF * float(np.abs(d["a"]).sum()))
+            ev("C03/transitionVar", model.transitionVar, (n_e,), "transitionVar(x,t)", var_ref, 1e-8, 1e-10, terms=tF * tF * float(np.abs(d["a"]).sum()))
         if case.get("in_place", True):
             for raw in used:
                 _use_in_place(raw)
